@@ -223,7 +223,7 @@ def run(chk):
         "of proxies) and proved equal to the declarative definitions for all integer matrices of the enumerated "
         "shapes. TemplatePattern.matches (floating-point SVD) is NOT encodable: it is run on enumerated concrete "
         "integer matrices and compared with the exact solver oracle (reported separately, enumeration + oracle).")
-    chk.assumptions = ["element sizes concrete from {1,2,4,8} (ceil(8/size) uses float division)",
+    chk.assumptions = ["element sizes concrete from {1,2,3,4,5,6,8,16} (ceil(8/size) uses float division)",
                        "schedule has at least as many dims as the template in the `matches` oracle, as in the code",
                        "at most %d yields per path" % MAX_YIELDS]
     combos = [(), ("pos",), ("mem",), ("pos", "mem")]
@@ -233,7 +233,7 @@ def run(chk):
     for rows in (1, 2):
         for tcols in (1, 2, 3):
             cases.append(("pos", 1, rows, tcols, 1, (1,)))
-    for size in (1, 2, 4, 8):
+    for size in (1, 2, 4, 8, 3, 6, 5, 16):  # incl. widths that do not divide the bank (i24, i48, i40) and wider than it
         for rows, tcols, scols in ((1, 1, 1), (1, 2, 1), (2, 1, 1), (2, 2, 1), (1, 1, 2), (2, 1, 2)) + (() if quick else ((2, 2, 2),)):
             cases.append(("mem", 1, rows, tcols, scols, (size,)))
     cases.append(("mem", 2, 1, 1, 1, (1, 4)))
